@@ -23,12 +23,12 @@ const modPath = "github.com/pion/stun/v3"
 
 // Options for Build.
 type Options struct {
-	Repo     string // /repo
-	ShimDir  string // /verif/mc/_shim
-	OutDir   string // where rewritten files and overlay.json go
-	Sched    bool   // rewrite sync/atomic/runtime/go/map-range
+	Repo     string            // /repo
+	ShimDir  string            // /verif/mc/_shim
+	OutDir   string            // where rewritten files and overlay.json go
+	Sched    bool              // rewrite sync/atomic/runtime/go/map-range
 	Extra    map[string]string // additional overlay entries (target path -> source file), e.g. mutants
-	Packages []string // package dirs relative to Repo; default {".", "internal/hmac"}
+	Packages []string          // package dirs relative to Repo; default {".", "internal/hmac"}
 }
 
 // Report says what was rewritten.
